@@ -1320,11 +1320,35 @@ func (c *Ctx) zeroTimeoutDeadline(recordedMode bool) {
 	// the deadline may be computed by a helper that returns it (record.Height = t.deadlineHeight(timeout)): the helper's
 	// result for timeout == 0 must be MaxUint64
 	for _, h := range c.P.ModuleFuncs(false) {
-		if !strings.Contains(core.FnName(h), "contracts.TransactionManager).") || len(h.Blocks) == 0 || h.Signature.Results().Len() != 1 {
+		if core.PkgOf(h) != "internal/executor/contracts" || h.Parent() != nil || len(h.Blocks) == 0 || h.Signature.Results().Len() != 1 {
 			continue
 		}
 		var tparam *ssa.Parameter
 		sumRet := false
+		mentionsCur := func(v ssa.Value) bool {
+			return core.Mentions(v, func(w ssa.Value) bool {
+				cc, ok := w.(*ssa.Call)
+				return ok && strings.HasSuffix(core.CalleeName(cc), "GetCurrentHeight")
+			})
+		}
+		// the current height: read in the helper, or handed in by every caller
+		isCurParam := func(v ssa.Value) bool {
+			p, ok := core.Strip(v).(*ssa.Parameter)
+			if !ok || p.Parent() != h {
+				return false
+			}
+			pi := paramIndex(h, p)
+			ss := core.StaticSitesOf(h)
+			if pi < 0 || len(ss) == 0 {
+				return false
+			}
+			for _, site := range ss {
+				if pi >= len(site.Common().Args) || !mentionsCur(site.Common().Args[pi]) {
+					return false
+				}
+			}
+			return true
+		}
 		for _, ret := range core.Returns(h) {
 			for _, o := range core.RetOrigins(ret.Results[0]) {
 				bo, ok := core.Strip(o.V).(*ssa.BinOp)
@@ -1332,11 +1356,8 @@ func (c *Ctx) zeroTimeoutDeadline(recordedMode bool) {
 					continue
 				}
 				for _, side := range [][2]ssa.Value{{bo.X, bo.Y}, {bo.Y, bo.X}} {
-					isCur := core.Mentions(side[0], func(w ssa.Value) bool {
-						cc, ok := w.(*ssa.Call)
-						return ok && strings.HasSuffix(core.CalleeName(cc), "GetCurrentHeight")
-					})
-					if p, ok := core.Strip(side[1]).(*ssa.Parameter); ok && isCur {
+					isCur := mentionsCur(side[0]) || isCurParam(side[0])
+					if p, ok := core.Strip(side[1]).(*ssa.Parameter); ok && isCur && !isCurParam(side[1]) {
 						tparam, sumRet = p, true
 					}
 				}
